@@ -26,9 +26,20 @@ type tlogWorld struct{}
 type memStore struct {
 	h     []tlog.Hash
 	reads []int64
+	view  bool // consecutive indexes are answered with a slice of the store itself (a reader may do that: callers only read)
 }
 
 func (s *memStore) ReadHashes(idx []int64) ([]tlog.Hash, error) {
+	if s.view && len(idx) > 0 && idx[0] >= 0 && idx[len(idx)-1] < int64(len(s.h)) {
+		consecutive := true
+		for i := range idx {
+			consecutive = consecutive && idx[i] == idx[0]+int64(i)
+		}
+		if consecutive {
+			s.reads = append(s.reads, idx...)
+			return s.h[idx[0] : idx[0]+int64(len(idx)) : idx[0]+int64(len(idx))], nil
+		}
+	}
 	out := make([]tlog.Hash, len(idx))
 	for i, x := range idx {
 		if x < 0 || x >= int64(len(s.h)) {
@@ -91,7 +102,7 @@ func (w *tlogWorld) checkAppend(c *core.Case) ([]core.Violation, bool) {
 		panic(err)
 	}
 	terms := refmerkle.NewTerms(refmerkle.DefaultRec)
-	st := &memStore{}
+	st := &memStore{view: true}
 	n := len(in.Recs)
 	var last []tlog.Hash
 	for i, d := range in.Recs {
@@ -129,13 +140,21 @@ func (w *tlogWorld) checkAppend(c *core.Case) ([]core.Violation, bool) {
 	if th, err := tlog.TreeHash(0, st); err != nil || [32]byte(th) != refmerkle.Empty {
 		return viol(c, "append:emptytree", "TreeHash(0) = %v, %v", th, err), true
 	}
-	for m := 1; m <= n; m++ {
-		th, err := tlog.TreeHash(int64(m), st)
-		if err != nil {
-			return viol(c, "append:treehash", "TreeHash(%d): %v", m, err), true
+	pristine := append([]tlog.Hash(nil), st.h...)
+	for pass := 0; pass < 2; pass++ { // twice: reading the tree hash leaves the store as it was
+		for m := 1; m <= n; m++ {
+			th, err := tlog.TreeHash(int64(m), st)
+			if err != nil {
+				return viol(c, "append:treehash", "TreeHash(%d): %v", m, err), true
+			}
+			if want := terms.Concrete(exp.Trees[m-1]); [32]byte(th) != want {
+				return viol(c, "append:treehash", "TreeHash(%d) of %d records is %s (pass %d), specification says %s", m, n, terms.Term(th), pass+1, exp.Trees[m-1]), true
+			}
 		}
-		if want := terms.Concrete(exp.Trees[m-1]); [32]byte(th) != want {
-			return viol(c, "append:treehash", "TreeHash(%d) of %d records is %s, specification says %s", m, n, terms.Term(th), exp.Trees[m-1]), true
+	}
+	for i := range pristine {
+		if st.h[i] != pristine[i] {
+			return viol(c, "append:store-modified", "computing tree hashes of %d records changed stored hash %d (the reader hands out slices of its store)", n, i), true
 		}
 	}
 	for p, lk := range exp.Coords {
@@ -164,7 +183,12 @@ func (w *tlogWorld) checkRecText(c *core.Case) ([]core.Violation, bool) {
 	}
 	text := []byte(concrete.Str(in.Text))
 	rest := []byte(concrete.Str(in.Rest))
-	msg, err := tlog.FormatRecord(in.ID, text)
+	// the text is handed over as a slice of a longer buffer (the next record follows it): the call must not write to it
+	backing := append(append([]byte(nil), text...), "NEXT RECORD\n"...)
+	msg, err := tlog.FormatRecord(in.ID, backing[:len(text)])
+	if string(backing[len(text):]) != "NEXT RECORD\n" || !bytes.Equal(backing[:len(text)], text) {
+		return viol(c, "rectext:argument-modified", "FormatRecord(%d,%q) writes into the buffer its argument is a slice of: the bytes after it are now %q", in.ID, text, backing[len(text):]), true
+	}
 	if exp.Valid && err != nil {
 		return viol(c, "rectext:rejectvalid", "FormatRecord rejects valid record text %q: %v", text, err), true
 	}
